@@ -1,6 +1,6 @@
 //! Drivers: the two systems under test behind one interface, fed through real byte channels.
 
-use crate::model::{Cb, DOp, Kind, Note, Snap, Write};
+use crate::model::{Cb, DOp, Kind, Snap, Write};
 use bytes::BytesMut;
 use futures::future::BoxFuture;
 use futures::FutureExt;
@@ -399,6 +399,3 @@ impl<S: Sys> Driver<S> {
         }
     }
 }
-
-#[allow(dead_code)]
-fn _unused(_: Note) {}
